@@ -56,7 +56,7 @@ class C16(E1Check):
         return {"N": 3, "D": 4} if self.tier == "quick" else {"N": 4, "D": 5, "max_states": 40000}
 
     def budget(self):
-        return 600 if self.tier == "quick" else 2400
+        return 600 if self.tier == "quick" else 1200
 
     def worker_init(self):
         super().worker_init()
